@@ -76,6 +76,13 @@ impl Ctx {
         self.expect.push(format!("{} {}", id, answer));
         self.op_props.push(props.to_string());
         self.count(&format!("op.{}", op));
+        // translator tie: the same request also goes to the definition REGENERATED from the Rust text
+        // (lean/Generated/Kernels.lean, op `gen_<name>`), with the same expected answer
+        const KERNEL_OPS: [&str; 10] = ["fc_set_cur_max", "fc_solve", "gen_set_cur_max", "gen_req", "edrv_set_cur_max",
+            "edrv_set_regen_max", "edrv_req", "res_set_cur_max", "res_solve", "min_speed"];
+        if KERNEL_OPS.contains(&op) {
+            self.op(props, &format!("gen_{}", op), args, answer);
+        }
         id
     }
     pub fn checked(&mut self, property: &str, clause: &str) {
